@@ -9,11 +9,16 @@ from vf.scen import CLOSED, CONNECTED
 
 PROPERTY = "C07"
 
-ALPHA = [E.DRAIN, E.TURN, E.TIMER, E.LONGWAIT, E.DISCONNECT, E.FORCE, E.CANCEL, E.CONNECT_OK,
-         E.D_HELLO, E.D_CONNECT, E.D_GARBAGE, E.D_DISCREQ, E.D_DISCRESP, E.D_MSG, E.D_BADPAYLOAD, E.EOF, E.RESET,
-         E.WRITEFAIL, E.FLUSH, E.D_PINGREQ, E.FINISH]
+ALPHA_FULL = [E.DRAIN, E.TURN, E.TIMER, E.LONGWAIT, E.DISCONNECT, E.FORCE, E.CANCEL, E.CONNECT_OK,
+              E.D_HELLO, E.D_CONNECT, E.D_GARBAGE, E.D_DISCREQ, E.D_DISCRESP, E.D_MSG, E.D_BADPAYLOAD, E.EOF, E.RESET,
+              E.WRITEFAIL, E.FLUSH, E.D_PINGREQ, E.FINISH]
+# reduced alphabet of the 4-event exploration (thorough tier)
+ALPHA_Q = [E.DRAIN, E.TURN, E.TIMER, E.LONGWAIT, E.DISCONNECT, E.FORCE, E.D_HELLO, E.D_CONNECT, E.D_GARBAGE, E.D_DISCREQ,
+           E.D_DISCRESP, E.D_MSG, E.EOF, E.RESET, E.WRITEFAIL, E.D_PINGREQ]
+ALPHA = ALPHA_Q if shard_int("QA", 0) else ALPHA_FULL
 NA = len(ALPHA)
 SH0 = shard_int("SH0", 0)
+SH1 = shard_int("SH1", -1)  # thorough tier: the second event is fixed per shard as well
 STAGE = shard_int("STAGE", 0)
 NOISE = shard_int("NOISE", 0)  # 1: encrypted transport (the scenario starts with finish_connection parked on the noise handshake)
 NEEDS_NOISE_PATCHES = True
@@ -160,15 +165,20 @@ def h07_4(a0: int, a1: int, a2: int, a3: int) -> bool:
     """
     pre: a0 == SH0
     pre: 0 <= a1 < NA and 0 <= a2 < NA and 0 <= a3 < NA
+    pre: SH1 < 0 or a1 == SH1
     post: _
     """
     return _run([a0, a1, a2, a3])
 
 
-def _enabled_first(stage: int, noise: int = 0) -> list:
+def _mk(stage: int, noise: int):
+    return lambda: Scenario(stage, world_kw={"noise_psk": PSK} if noise else None)
+
+
+def _enabled_first(stage: int, noise: int = 0, alpha=None) -> list:
     out = []
-    for i, ev in enumerate(ALPHA):
-        s = Scenario(stage, world_kw={"noise_psk": PSK} if noise else None)
+    for i, ev in enumerate(alpha or ALPHA_FULL):
+        s = _mk(stage, noise)()
         try:
             if s.apply(ev):
                 out.append(i)
@@ -181,16 +191,20 @@ def shards(tier: str) -> list:
     out = []
     stages = [E.ST_OPENED, E.ST_HELLO_SENT, E.ST_CONNECTED, E.ST_DISCONNECTING] if tier == "quick" else \
         [E.ST_CONNECTING, E.ST_OPENED, E.ST_HELLO_SENT, E.ST_CONNECTED, E.ST_DISCONNECTING]
-    fn = "h07_3" if tier == "quick" else "h07_4"
     for st, nz in [(x, 0) for x in stages] + [(E.ST_HELLO_SENT, 1)]:
         for i in _enabled_first(st, nz):
-            out.append({"fn": fn, "env": {"STAGE": st, "SH0": i, "NOISE": nz}, "cond_timeout": 600 if tier == "quick" else 2400, "path_timeout": 60,
-                        "desc": f"stage {E.STAGE_NAMES[st]}{' (noise: handshake pending)' if nz else ''}, first event {E.NAMES[ALPHA[i]]}, then {2 if tier == 'quick' else 3} symbolic events"})
+            out.append({"fn": "h07_3", "env": {"STAGE": st, "SH0": i, "NOISE": nz, "QA": 0}, "cond_timeout": 600 if tier == "quick" else 1500, "path_timeout": 60,
+                        "desc": f"stage {E.STAGE_NAMES[st]}{' (noise: handshake pending)' if nz else ''}, first event {E.NAMES[ALPHA_FULL[i]]}, then 2 symbolic events (21-event alphabet)"})
+    if tier != "quick":
+        for st, nz in [(E.ST_HELLO_SENT, 0), (E.ST_CONNECTED, 0), (E.ST_DISCONNECTING, 0)]:
+            for i, j in E.enabled_pairs(_mk(st, nz), ALPHA_Q):
+                out.append({"fn": "h07_4", "env": {"STAGE": st, "SH0": i, "SH1": j, "NOISE": nz, "QA": 1}, "cond_timeout": 1500, "path_timeout": 60,
+                            "desc": f"stage {E.STAGE_NAMES[st]}, events {E.NAMES[ALPHA_Q[i]]}, {E.NAMES[ALPHA_Q[j]]}, then 2 symbolic events (16-event alphabet)"})
     return out
 
 
 BOUNDS = {"quick": "4 lifecycle stages x 3 events from a 21-event alphabet (close causes: DisconnectRequest, disconnect(), force_disconnect(), EOF, reset, write failure, ping timeout via 7K of silence, protocol errors; same-chunk and same-turn combinations)",
-          "thorough": "5 stages x 4 events"}
+          "thorough": "5 stages x 3 events (21-event alphabet) plus every sequence of 4 events from a 16-event alphabet after hello sent, connected, disconnecting"}
 OUTSIDE = ["sequences longer than the bound", "noise transport"]
 ASSUMPTIONS = ["SimLoop/SimTransport model of asyncio (see C05)",
                "reference for the argument: force_disconnect()/DisconnectRequest processed while open => True; disconnect() => True once its coroutine ran a loop iteration with the connection open; calls racing a close in the same turn, or issued while a connect phase is pending, are don't-care"]
